@@ -17,6 +17,17 @@ UTILS = "fparser.two.utils"
 NAME_DOMAIN = frozenset([("c", None), ("c", "a"), ("c", "A"), ("c", "b")])
 
 
+_REPO_EXC = {}
+
+
+def repo_exceptions(m):
+    """names of the exception classes the parser package defines itself"""
+    if id(m) not in _REPO_EXC:
+        two = {c["name"] for c in m.classes.values() if c["module"].startswith("fparser.two")}
+        _REPO_EXC[id(m)] = {n for n in m.exceptions if m.is_exc_sub(n, "Exception") and n in two}
+    return _REPO_EXC[id(m)]
+
+
 def signal_classes(m):
     """Exception classes that the API boundary Program.__new__ converts, plus FortranSyntaxError itself."""
     f = m.need_func("fparser.two.Fortran2003", "Program.__new__")
@@ -454,11 +465,29 @@ class ScopeClient(BlockClient):
             return (st.set("$table", F.const("removed")),)
         return BlockClient.call_effect(self, call, st)
 
+    def local_names(self):
+        if not hasattr(self, "_locals"):
+            self._locals = set(A.param_names(self.f.node)) | {nm for n in A.body_nodes(self.f.node) if isinstance(n, (ast.Assign, ast.For))
+                                                              for t in (n.targets if isinstance(n, ast.Assign) else [n.target])
+                                                              for nm in A.assigned_names(t)}
+        return self._locals
+
     def call_raises(self, call, st):
         d = A.dotted(call.func) or ""
         if d.endswith(("SYMBOL_TABLES.exit_scope", "SYMBOL_TABLES.remove", "SYMBOL_TABLES.enter_scope")):
             return ()   # the release call's own failure is exempt
-        return BlockClient.call_raises(self, call, st)
+        out = BlockClient.call_raises(self, call, st)
+        fn = call.func
+        if isinstance(fn, ast.Name):
+            v = st.env.get(fn.id)
+            on_reader = bool(call.args) and isinstance(call.args[0], ast.Name) and call.args[0].id == "reader" \
+                and fn.id in self.local_names()
+            if (v is not None and any(a[0] == "cls" for a in v)) or on_reader:
+                # a class of the grammar is called on the reader: its matcher may end in ANY exception class of the package
+                # (SymbolTableError from a declaration when the tables' checks are on, InternalError ...), not only in the
+                # classes the API boundary converts
+                out = set(out) | repo_exceptions(self.m)
+        return out
 
 
 def ret_kind(node, st):
@@ -519,7 +548,7 @@ def run_scope(ctx, finfo, inst, rule, label, guard="table_name", init_extra=None
                  "no match is reported at `%s` but the symbol table created by this function is not removed"
                  % (A.text(node) if node else "end of function"), node)
     for st, exc, node in out.exc:
-        if exc not in ctx.signals and not any(m.is_exc_sub(exc, s) for s in ctx.signals):
+        if exc not in ctx.signals and not any(m.is_exc_sub(exc, s) for s in ctx.signals) and exc not in repo_exceptions(m):
             continue
         n_exits += 1
         if st.get("$scope") != F.const("closed"):
